@@ -23,6 +23,7 @@ import (
 type abortSentinel struct{}
 
 type thread struct {
+	s       *Sched
 	id      int
 	name    string
 	wake    chan bool // true = proceed, false = abort
@@ -55,7 +56,6 @@ type PointInfo struct {
 type Sched struct {
 	prefix   []int
 	threads  []*thread
-	byGoid   sync.Map // goid -> *thread
 	yielded  chan *thread
 	locks    map[any]*lockState
 	mu       sync.Mutex
@@ -69,7 +69,13 @@ type Sched struct {
 	timeout  time.Duration
 }
 
-var curSched atomic.Pointer[Sched]
+// harness threads of all active executions, by goroutine id. Several
+// explorations may run in parallel (one Sched each); a goroutine belongs to at
+// most one of them.
+var (
+	allThreads  sync.Map // goid -> *thread
+	activeCount atomic.Int64
+)
 
 func goid() int64 {
 	var buf [64]byte
@@ -83,15 +89,15 @@ func goid() int64 {
 }
 
 func currentThread() (*Sched, *thread) {
-	s := curSched.Load()
-	if s == nil {
+	if activeCount.Load() == 0 {
 		return nil, nil
 	}
-	v, ok := s.byGoid.Load(goid())
+	v, ok := allThreads.Load(goid())
 	if !ok {
 		return nil, nil
 	}
-	return s, v.(*thread)
+	t := v.(*thread)
+	return t.s, t
 }
 
 // Attached reports whether the calling goroutine is a harness thread of an
@@ -158,11 +164,13 @@ func (s *Sched) park(t *thread, kind string, op *lockOp) {
 
 // Go registers a harness thread. Must be called before RunAll.
 func (s *Sched) Go(name string, fn func()) {
-	t := &thread{id: len(s.threads), name: name, wake: make(chan bool)}
+	t := &thread{s: s, id: len(s.threads), name: name, wake: make(chan bool)}
 	s.threads = append(s.threads, t)
 	go func() {
-		s.byGoid.Store(goid(), t)
+		gid := goid()
+		allThreads.Store(gid, t)
 		defer func() {
+			allThreads.Delete(gid)
 			r := recover()
 			if r != nil {
 				if _, ok := r.(abortSentinel); !ok {
@@ -219,8 +227,8 @@ func (s *Sched) acquire(t *thread) {
 // by the prefix (then default choice 0). It returns the per-thread panic
 // values (nil entries for threads that finished normally).
 func (s *Sched) RunAll() []any {
-	curSched.Store(s)
-	defer curSched.Store(nil)
+	activeCount.Add(1)
+	defer activeCount.Add(-1)
 	// all threads are parked on their wake channel (start point); they are
 	// all "ready" with no pending lock.
 	for {
@@ -386,6 +394,12 @@ func (e *Explorer) Run() bool {
 
 func (e *Explorer) explore(prefix []int) {
 	if e.C.Expired("schedule DFS " + e.Name) {
+		e.Complete = false
+		return
+	}
+	if e.C.Violations() > 0 {
+		// a counterexample exists (fewest deviations first); stop early
+		e.C.Capped("stopped at first violation")
 		e.Complete = false
 		return
 	}
